@@ -121,11 +121,22 @@ def replay(spec, history, menu):
     return pool, refs
 
 
+def refkey(refs):
+    """Canonical form of the reference side of a pool: per member the multiset of (record, weight) and fillability."""
+    out = []
+    for m in refs:
+        evs = sorted(repr((A.show(r), A.show(w))) for r, w in m.evs if w > 0)
+        out.append((tuple(evs), m.fillable))
+    return tuple(out)
+
+
 def bfs(spec, menu, H, P, on_state, on_error, max_states=None):
     """Breadth-first over histories of length <= H. on_state(pool, refs, history) is called on every *new* state
     (and must not mutate the pool); on_error(history, op, exc) when an operation raises. Returns stats dict."""
+    # a state = (object graph of the real pool, reference multisets): two histories are merged only if BOTH agree, so a
+    # history whose real effect was lost (same objects, different expected content) is still examined
     pool, refs = replay(spec, [], menu)
-    seen = {C.digest(*pool)}
+    seen = {(C.digest(*pool), refkey(refs))}
     frontier = collections.deque([[]])
     stats = {"states": 1, "transitions": 0, "max_depth": 0, "errors": 0, "capped": False}
     on_state(pool, refs, [])
@@ -145,7 +156,7 @@ def bfs(spec, menu, H, P, on_state, on_error, max_states=None):
                 # a caller can catch and continue: the state after the failed operation is still examined
                 on_state(pool, None, hist + [op])
                 continue
-            k = C.digest(*pool)
+            k = (C.digest(*pool), refkey(refs))
             if k in seen:
                 continue
             seen.add(k)
